@@ -174,9 +174,9 @@ def infer(presentation):
 
 def presentations(prog):
     """prog: tuple of statement specs. statements writing <p>g live in phase 'b', the rest in 'a'."""
-    stmts = [make_stmt(s, i) for i, s in enumerate(prog)]
-    a = [st for st, sp in zip(stmts, prog) if sp[0] != "<p>g"]
-    b = [st for st, sp in zip(stmts, prog) if sp[0] == "<p>g"]
+    # statement ids are unique within a phase only (both phases count from s0), as the language requires
+    a = [make_stmt(sp, i) for i, sp in enumerate([sp for sp in prog if sp[0] != "<p>g"])]
+    b = [make_stmt(sp, i) for i, sp in enumerate([sp for sp in prog if sp[0] == "<p>g"])]
     for pa in itertools.permutations(a):
         for pb in itertools.permutations(b):
             if b and a:
